@@ -422,6 +422,70 @@ func c04Scenario(p c04P, b Bounds) *Scenario {
 	}
 }
 
+// c04Reissue: call A's context ends before the peer answers; then call B is issued; the peer answers
+// A late and before B. B must complete with its own reply (a late reply is consumed by nobody).
+func c04Reissue(b Bounds) *Scenario {
+	return &Scenario{
+		Name:   "reissue: call A cancelled, call B issued afterwards, late reply to A arrives before the reply to B",
+		Params: map[string]any{"history": []string{"Call A", "cancel A", "A returns", "Call B", "late reply to A", "reply to B"}},
+		Bounds: b,
+		New: func() *Instance {
+			h := &cliHarness{}
+			body := func() {
+				lib, peer, pipe := NewPipe(PipeOpts{Name: "cli", CloseUnblocksRecv: true})
+				h.pipe, h.peer = pipe, peer
+				c := jrpc2.NewClient(lib, nil)
+				ctxA, cancelA := context.WithCancel(context.Background())
+				var j Join
+				j.Go("caller", func() {
+					vs.Event("call", "mA")
+					rsp, err := c.Call(ctxA, "mA", nil)
+					callRet("mA", rsp, err)
+					vs.Event("call", "mB")
+					rsp, err = c.Call(context.Background(), "mB", nil)
+					callRet("mB", rsp, err)
+				})
+				j.Go("cancel", func() { vs.Await(func() bool { return h.idOf("mA") != "" }, "request A seen"); vs.Event("env", "cancel"); cancelA() })
+				vs.GoNamed("peer", h.peerLoop)
+				vs.GoNamed("script", func() {
+					vs.Await(func() bool { return h.idOf("mB") != "" || h.peerDone }, "await request B")
+					if h.peerDone {
+						return
+					}
+					h.send(replyFor("mA", h.idOf("mA")))
+					h.send(replyFor("mB", h.idOf("mB")))
+				})
+				j.Wait()
+				vs.AwaitQuiescence()
+				c.Close()
+			}
+			check := func(x *vs.Exec) []Viol {
+				v := genericRules(x, nil)
+				if x.Outcome != "ok" {
+					return v
+				}
+				idB := ""
+				for _, e := range x.Log {
+					if e.K == "peer-saw" && e.Arg(0) == "mB" {
+						idB = e.Arg(1)
+					}
+				}
+				r := findEv(x, 0, "ret", "mB")
+				Hit("C04.R2")
+				if r < 0 {
+					return append(v, Viol{"C04.R1", "call B did not return"})
+				}
+				e := x.Log[r]
+				if e.Arg(1) != "ok" || e.Arg(3) != fmt.Sprintf(`"R:mB:%s"`, idB) {
+					v = append(v, Viol{"C04.R2", fmt.Sprintf("call B (id %s) completed with %s %s %s: not the reply the peer sent for it (a late reply to the cancelled call A must be consumed by nobody)", idB, e.Arg(1), e.Arg(2), e.Arg(3))})
+				}
+				return v
+			}
+			return &Instance{Body: body, Check: check}
+		},
+	}
+}
+
 func perms(n int) [][]int {
 	var out [][]int
 	var rec func(cur []int, used []bool)
@@ -462,6 +526,7 @@ func c04Scenarios(tier string) []*Scenario {
 			}
 		}
 	}
+	out = append(out, c04Reissue(b2))
 	for i, pm := range perms(3) {
 		if q && i%2 == 1 {
 			continue
